@@ -86,6 +86,25 @@ class Program(Unit):
                     res.append((f'wire:{env}#soap-envelope-element', ok, 'struct attribute ' + a[:160]))
         return res
 
+    # ---- C02 / C08: member ORDER (a struct pattern is insensitive to field order, so this is compared on the index)
+    def order_checks(self):
+        if self.concern not in ('C02', 'C08'):
+            return []
+        sp, em, m = self.sp, self.em, self.model
+        res = []
+        for key, ct in m.complex.items():
+            if self.concern == 'C08' and ct.base is None:
+                continue
+            mod = sp.module_of(key[0])
+            st = em.structs(em.mods[mod]).get(M.pascal(key[1]))
+            if st is None:
+                continue        # reported by the shape contract
+            got = [f[0] for f in Emitted.fields(st)]
+            want = [M.snake(x.name) for x in m.all_members(key)]
+            ok = len(got) == len(want) and all(field_ident_ok(w, g) for w, g in zip(want, got))
+            res.append((f'order:{mod}::{M.pascal(key[1])}#members-in-declaration-order', ok, f'emitted order {got}, declared order {want}'))
+        return res
+
     # ---- C08: inherited members keep the namespace of the schema that declared them (attribute text)
     def c08_checks(self):
         if self.concern != 'C08':
@@ -390,7 +409,7 @@ class Program(Unit):
         """ghost functions that only type-check if the emitted structs have exactly the expected members"""
         sp, em, m = self.sp, self.em, self.model
         n = 0
-        if self.concern in ('C02', 'C08'):
+        if self.concern in ('C02', 'C08', 'C09'):
             for kind, key in m.order:
                 if self.concern == 'C08' and not (key in m.complex and m.complex[key].base is not None):
                     continue
@@ -425,7 +444,7 @@ class Program(Unit):
                         continue
                     out.spec(f'    pub open spec fn alias_{mod}_{P}(x: {mod}::{P}) -> {target} {{ x }}', label=f'shape:{mod}::{P}#alias-of-declared-type')
                     n += 1
-        if self.concern == 'C05':
+        if self.concern in ('C05', 'C09'):
             for op in m.operations:
                 P = self.op_pascal(op)
                 for side, heads, body in (('Input', op.input_headers, op.input_body), ('Output', op.output_headers, op.output_body)):
@@ -454,6 +473,8 @@ class Program(Unit):
                     fields.append(('body', env + 'Body', 'Body'))
                     self.shape(out, f'shape:{env}', env, fields, None)
                     n += 3
+                if self.concern != 'C05':
+                    continue
                 # one async method per operation, snake_case, request envelope in, response envelope (or unit) out
                 ret = f'{P}OutputEnvelope' if op.output_body is not None else '()'
                 meth = M.snake(op.name)
